@@ -1,10 +1,12 @@
 #!/bin/bash
 cd /verif
-for id in $(jq -r '.checks[].property_id' MANIFEST.json); do
+ids=${*:-$(jq -r '.checks[].property_id' MANIFEST.json)}
+mkdir -p evidence_thorough
+for id in $ids; do
   t0=$(date +%s)
   out=$(./check $id thorough 2>&1); rc=$?
   t1=$(date +%s)
   echo "$id rc=$rc secs=$((t1-t0)) $(echo "$out" | grep -E "^$id tier" | tail -1)"
   [ $rc -ne 0 ] && echo "$out" | grep -E "VIOLATION|signature|INFRA" | head -8
-  cp evidence/$id.json /tmp/evidence_thorough_$id.json 2>/dev/null
+  cp evidence/$id.json evidence_thorough/$id.json 2>/dev/null
 done
